@@ -221,7 +221,9 @@ pub fn run(rec: &mut Rec, rng: &mut Rng, n: usize) {
         let r = rng.below(100);
         if r >= 96 {
             let pick = |rng: &mut Rng| if rng.chance(1, 8) { "none".to_string() } else { (4096 * rng.below(6)).to_string() };
-            let line = format!("k.overlap s1={} l1={} s2={} l2={} same={}", pick(rng), 1 + rng.below(3 * 4096), pick(rng), 1 + rng.below(3 * 4096), rng.chance(3, 4) as u8);
+            // lengths: half of them whole pages, so that ranges that merely touch (end == start) are common
+            let len = |rng: &mut Rng| if rng.chance(1, 2) { 4096 * (1 + rng.below(3)) } else { 1 + rng.below(3 * 4096) };
+            let line = format!("k.overlap s1={} l1={} s2={} l2={} same={}", pick(rng), len(rng), pick(rng), len(rng), rng.chance(3, 4) as u8);
             go(&mut w, rec, line);
             continue;
         }
